@@ -202,6 +202,16 @@ def run(ck):
         if short(fn) not in allowed and f.body(fn).public:
             ck.finding('C04.R6', fn, 'writes:last_label', f"public function {short(fn)} writes Decapsulator.last_label; not one of the reviewed entry points")
     ck.rule('C04.R6 writers of Decapsulator.last_label', len(writers), 5)
+    # R8: encap_frag / the previews (and any other public function) do not touch the sender's label memory
+    ew = c15.who_writes(f, 'gse_encap::Encapsulator', ['last_label', 're_current_consecutive'])
+    e_allowed = {'new', 'reset_last_label', 'disable_re_use_label', 'enable_re_use_label', 'enable_re_use_label_with_max_consecutive', 'check_label_re_use', 'encap', 'encap_ext'}
+    n8 = 0
+    for fld, fns in ew.items():
+        for fn in fns:
+            n8 += 1
+            if short(fn) not in e_allowed and '::clone' not in fn and f.body(fn).public:
+                ck.finding('C04.R8', fn, f"writes:{fld}", f"public function {short(fn)} writes Encapsulator.{fld}: the sender's label memory may only move with a start/complete packet, a reset or a reconfiguration")
+    ck.rule('C04.R8 writers of the sender label memory', n8, 8)
     # R7: both resets
     for key, idx in ((ENC + 'reset_last_label', c.i_last), (DEC + 'reset_last_label', i_dlast)):
         s = ck.analyse(key, {'kslots': 2})
